@@ -60,6 +60,12 @@ func fieldRoles(r *Run) map[string]string {
 						out[st.Field(i).Name()] = "e"
 						out[st.Field(1-i).Name()] = "v"
 					}
+					// expiration carried by an embedded one-field struct: that field is transparent
+					if es := core.StructOf(st.Field(i).Type()); es != nil && st.Field(i).Embedded() && core.NamedOf(st.Field(i).Type()) == r.M.ItemEmb[twin] && r.M.ItemEmb[twin] != "" {
+						out[st.Field(i).Name()] = "embed"
+						out[es.Field(0).Name()] = "e"
+						out[st.Field(1-i).Name()] = "v"
+					}
 				}
 			}
 		}
